@@ -1,15 +1,18 @@
-"""C15 — LIST and MAP columns are assembled into the right per-row lists and dicts (DESIGN.md section 6, C15).
+"""C15 — LIST and MAP columns are assembled into the right per-row lists and dicts (DESIGN.md section 6, C15; notes/C15.md).
 
-Obligations : coq/props/C15.v (spec round trip assemble_shred, page-split theorem for the impl model of
-              _assemble_objects + read_col's carried row index, refuted theorems for the .pyx defects),
-              hygiene, .pyx-vs-.c staleness of _assemble_objects.
-Ties        : (a) direct calls of the real cencoding._assemble_objects on arrays with guard zones against
-              the extracted impl model (single calls with arbitrary state, and read_col's v1 / v2 call
-              sequences); (b) schema.py level computation / shape detection against the model and the spec
-              shapes; (c) nested Parquet files written by the spec-level writer (harness/nestedfile.py,
-              levels cross-checked against the proved Coq `shred`), read by ParquetFile(...).to_pandas()
-              in a subprocess, compared with the impl model run on the same page streams.
-Oracle      : to_pandas() of every written file equals the generated rows (the property's own text).
+Obligations : coq/props/C15.v (spec round trip both ways, page-split theorem for the impl model of _assemble_objects +
+              read_col's carried row index, its exact guard, v2 theorems, MAP theorems, struct-nested level fold, the
+              full statement for the model of the proposed .pyx repair, refuted theorems for the defects), hygiene,
+              .pyx-vs-.c staleness of _assemble_objects, extraction = kernel on 20 sampled commands, coqchk (thorough).
+Ties        : (a) direct calls of the real cencoding._assemble_objects on arrays with guard zones against the extracted
+              impl model (single calls with arbitrary state; read_col v1 / read_data_page_v2 call sequences over every
+              cut of short streams); (b) schema.py level / shape functions and core._nested_levels against their
+              models and the spec shapes; (c) nested Parquet files written by the spec-level writer
+              (harness/nestedfile.py, levels cross-checked against the proved Coq `shred`), read by
+              ParquetFile(...).to_pandas() in a subprocess, compared with the impl model run on the same page
+              streams; (d) third-party nested files of the repository's test data through the proved spec decoder.
+Oracle      : to_pandas() of every written file equals the generated rows (the property's own text); for third-party
+              files: equals assemble_spec of the stored levels and values.
 """
 import json
 import os
@@ -326,11 +329,15 @@ def run(ctx):
     rng = ctx.rng
     ctx.rule = ("A: direct calls of _assemble_objects (guard zones) - random single calls with arbitrary array state/prev_i/"
                 "levels (also ill-formed), and read_col v1 / read_data_page_v2 call sequences over shredded rows cut at every "
-                "position; B: schema level/shape functions on the 4 LIST + 4 MAP shapes and perturbed shapes; C: nested files "
-                "(LIST/MAP, required/optional at both levels, int32/int64/double/utf8, PLAIN/dictionary, v1/v2, 1..3 row groups, "
-                "level streams as rle/bit-packed/mixed runs): lattice = every 1-cut and 2-cut of short streams per shape, then random "
-                "files; known-bad splits (null-only continuation, continuation-only page) go to a capped confirmation stream in "
-                "isolated processes.  trivial = a stream in one page with a single row; distinct = distinct case dicts")
+                "position; B: schema level/shape functions on the 4 LIST + 4 MAP shapes and the whole lattice of repetition types; "
+                "E: core._nested_levels on every shape x {top level, required struct, optional struct}; D: third-party nested files "
+                "of the repository test data (decoded page streams -> spec decoder and impl model vs to_pandas()); C: nested files "
+                "(LIST/MAP, required/optional at both levels, optionally inside a struct / next to a flat column / legacy names, "
+                "6 value types, PLAIN/dictionary (both ids), v1/v2, none/SNAPPY/GZIP, 1..3 row groups, level streams as "
+                "rle/bit-packed/mixed runs, long columns): corpus, lattice = every 1-cut and 2-cut of short streams per shape, "
+                "fixed MAP files, then random files; known-bad splits (null-only continuation, continuation-only page) go to a "
+                "capped confirmation stream in isolated processes.  trivial = a stream in one page with a single row / an empty "
+                "call; distinct = distinct case dicts")
     try:
         stage_schema(ctx, pq, w)
         stage_struct_levels(ctx, pq, w)
